@@ -77,7 +77,7 @@ _STATES = re.compile(r"^(\d+) states generated, (\d+) distinct states found, (\d
 _DEPTH = re.compile(r"The depth of the complete state graph search is (\d+)")
 _VIOL_INV = re.compile(r"Error: Invariant (\S+) is violated")
 _VIOL_ACT = re.compile(r"Error: Action property (\S+) is violated")
-_VIOL_TMP = re.compile(r"Error: Temporal properties were violated")
+_VIOL_TMP = re.compile(r"Error: Temporal propert(?:y \S+ was|ies were) violated")
 _VIOL_POST = re.compile(r"Error: Evaluating (?:post|assumption|invariant).*|is violated|was violated|Assumption .* is false")
 
 
